@@ -130,6 +130,8 @@ SNIPPETS = {
     'unicode_names': 'class Ünïcödé:\n    def méthode(self, ñ=1): "döc"\nπ = 3.14\n"""doc π"""\n名前 = 1\nclass ＡＢ: pass\nªº = 1\n',
     'odd_strings': 'A = "\\ud800"\nB = "\\x00\\x01\\x1b"\nC = "\\N{BELL}"\nD = "\\u2028\\u2029"\nE = "<script>&amp;</p>"\nF = b"\\xff" b"\\x00"\nG = "]]>"\n',
     'surrogate_docstring': 'def f():\n    "doc \\ud800 x"\n',
+    'method_wrapped_twice': 'class C:\n    def f(): pass\n    f = staticmethod(f)\n    f = staticmethod(f)\n    @staticmethod\n    def g(): pass\n    g = classmethod(g)\n    def h(self): pass\n    h = classmethod(h)\n    h = staticmethod(h)\n',
+    'implementer_non_class': 'from zope.interface import implementer, classImplements\ndef some_function(): pass\nVALUE = 1\n@implementer(some_function, VALUE)\nclass K:\n    def m(self): "doc"\n    def some_function(self): pass\nclassImplements(K, VALUE)\n',
     'odd_docstrings': 'def a():\n    "\\x00"\ndef b():\n    "L{"\ndef c():\n    """\n    @param: x\n    @type\n    """\ndef d():\n    b"bytes doc"\ndef e():\n    f"fstring {doc}"\ndef f():\n    "a" "b"\ndef g():\n    1\ndef h():\n    "%s" % 1\n',
     'docstring_fields': 'def f(a, b):\n    """\n    @param a: x\n    @param a: again\n    @param c: missing\n    @type a: L{int\n    @type: nothing\n    @return: r\n    @return: r2\n    @rtype: x\n    @rtype: y\n    @raise: z\n    @keyword k: kk\n    @ivar i: on a function\n    """\n'
                         'class C:\n    """\n    @ivar a: x\n    @ivar a: dup\n    @cvar a: again\n    @type a: int\n    @type b: no such\n    @param p: for init\n    @ivar: noname\n    @var v:\n    """\n    a = 1\n',
